@@ -8,6 +8,7 @@ import (
 	"os/exec"
 	"reflect"
 	"sort"
+	"strconv"
 	"strings"
 
 	"github.com/wkhere/bcl"
@@ -53,6 +54,20 @@ type withEmbeddedAndTag struct {
 	Port  int `bcl:"listen"`
 	Limit int
 	Mode  string `bcl:"m"`
+}
+
+type withDigits struct {
+	Name    string
+	Port1   int
+	Max_Con int
+	AB      int
+}
+
+type prePopulated struct {
+	Name string
+	I    any
+	P    *struct{ X int }
+	Sub  any
 }
 
 type withUnexported struct {
@@ -107,7 +122,7 @@ func c15Value(r *rand.Rand, depth int) any {
 	}
 }
 
-var c15Keys = []string{"listen", "limit", "port", "mode", "x", "a", "ab", "a_b", "A_B", "count", "max_latency", "MaxLatency", "sub", "sub.n1", "sub.n2", "inner", "p", "s", "i", "j", "m", "l", "f", "c", "base", "tag", "own", "hidden", "shown", "name", "Name", "q"}
+var c15Keys = []string{"port\x11", "max\x7fcon", "port1", "max_con", "Port\x111", "a\x00b", "listen", "limit", "port", "mode", "x", "a", "ab", "a_b", "A_B", "count", "max_latency", "MaxLatency", "sub", "sub.n1", "sub.n2", "inner", "p", "s", "i", "j", "m", "l", "f", "c", "base", "tag", "own", "hidden", "shown", "name", "Name", "q"}
 
 func c15Block(r *rand.Rand, depth int) bcl.Block {
 	b := bcl.Block{Type: []string{"blk", "t", "with_pointers", "withembedded", "with_unexported", "a", "sub", "inner"}[r.Intn(8)], Fields: map[string]any{}}
@@ -144,7 +159,7 @@ func c15TargetType(r *rand.Rand, b bcl.Block, mutate bool) reflect.Type {
 		used[f] = true
 		sf := reflect.StructField{Name: name, Type: t}
 		if tag != "" {
-			sf.Tag = reflect.StructTag(`bcl:"` + tag + `"`)
+			sf.Tag = reflect.StructTag("bcl:" + strconv.Quote(tag))
 		}
 		fs = append(fs, sf)
 	}
@@ -164,6 +179,11 @@ func c15TargetType(r *rand.Rand, b bcl.Block, mutate bool) reflect.Type {
 			// reachable by name: the Go name must fold-equal the key
 			goName = strings.ToUpper(base[:1]) + strings.ReplaceAll(base[1:], "_", "")
 		} else {
+			tag = k
+		}
+		if !validGoName(goName) {
+			// keys that no Go identifier can spell (control bytes): reachable through a tag only
+			goName = fmt.Sprintf("K%x", base)
 			tag = k
 		}
 		var t reflect.Type
@@ -190,6 +210,18 @@ func c15TargetType(r *rand.Rand, b bcl.Block, mutate bool) reflect.Type {
 		return reflect.TypeOf(struct{}{})
 	}
 	return reflect.StructOf(fs)
+}
+
+func validGoName(n string) bool {
+	if n == "" {
+		return false
+	}
+	for i, c := range n {
+		if !(c == '_' || c >= 'a' && c <= 'z' || c >= 'A' && c <= 'Z' || (i > 0 && c >= '0' && c <= '9')) {
+			return false
+		}
+	}
+	return true
 }
 
 func c15Targets(r *rand.Rand, bd bcl.Binding) any {
@@ -223,7 +255,7 @@ func c15Targets(r *rand.Rand, bd bcl.Binding) any {
 		return mk(c15TargetType(r, first, false), !isSlice) // wrong kind for the binding
 	case k == 13 || k == 15:
 		zt := []reflect.Type{reflect.TypeOf(withEmbedded{}), reflect.TypeOf(withUnexported{}), reflect.TypeOf(withPointers{}), reflect.TypeOf(A{}), reflect.TypeOf(Tunnel{}),
-			reflect.TypeOf(withEmbeddedPtr{}), reflect.TypeOf(withEmbeddedUnexpPtr{}), reflect.TypeOf(withEmbeddedAndTag{}), reflect.TypeOf(withEmbeddedAndTag{})}
+			reflect.TypeOf(withDigits{}), reflect.TypeOf(prePopulated{}), reflect.TypeOf(prePopulated{}), reflect.TypeOf(withEmbeddedPtr{}), reflect.TypeOf(withEmbeddedUnexpPtr{}), reflect.TypeOf(withEmbeddedAndTag{}), reflect.TypeOf(withEmbeddedAndTag{})}
 		return mk(zt[r.Intn(len(zt))], isSlice)
 	case k == 14:
 		// hostile non-struct things
@@ -443,6 +475,18 @@ func c15Case(c *core.Ctx, i int64, r *rand.Rand) {
 		bd = bcl.StructBinding{Value: c15Block(r, 0)}
 	}
 	target := c15Targets(r, bd)
+	// destinations that are already filled in: an interface holding a struct by value, a non-nil pointer
+	if pp, ok := target.(*prePopulated); ok {
+		pp.I = struct{ X int }{7}
+		pp.P = &struct{ X int }{8}
+		pp.Sub = A{X: 9}
+	}
+	if pps, ok := target.(*[]prePopulated); ok {
+		for k := range *pps {
+			(*pps)[k].I = struct{ X int }{7}
+			(*pps)[k].P = &struct{ X int }{8}
+		}
+	}
 	// a named struct type as target: the blocks take its name as their type
 	if tt := reflect.TypeOf(target); tt != nil && tt.Kind() == reflect.Pointer {
 		et := tt.Elem()
@@ -699,6 +743,17 @@ func c16Digest(src []byte) string {
 		fmt.Fprintf(&b, "exec=%s|%s|%v|out=%s|log=%s|", canonBlocks(bl), canonBinding(bi), xerr, out.String(), lg.String())
 		d2, _, _, _ := dumpOf(p)
 		fmt.Fprintf(&b, "dump-after-exec-same=%v|", bytes.Equal(d, d2))
+		// the caller reuses its input buffer after Parse returned: the Prog must not notice
+		in := append([]byte{}, src...)
+		var lgB, outB bytes.Buffer
+		if pb, errB := bcl.Parse(in, "c16", bcl.OptLogger(&lgB), bcl.OptOutput(&outB)); errB == nil {
+			for k := range in {
+				in[k] = '#'
+			}
+			dB, _, _, _ := dumpOf(pb)
+			blB, biB, xB := bcl.Execute(pb)
+			fmt.Fprintf(&b, "after-buffer-reuse: dump-same=%v exec-same=%v|", bytes.Equal(d, dB), canonBlocks(blB) == canonBlocks(bl) && canonBinding(biB) == canonBinding(bi) && fmt.Sprint(xB) == fmt.Sprint(xerr))
+		}
 		// a dump into a failing writer must not influence the next dump
 		fw := &failingWriter{limit: len(d) / 2}
 		pan2, _ := protect(func() { p.Dump(fw) })
